@@ -186,6 +186,8 @@ enum Job {
     HeadsUp { board: [u8; 5], lo: usize, hi: usize },
     Collisions { index: u64 },
     TieBoards { index: u64 },
+    /// consecutive calls that share the players and the turn/river (or the flop) and differ in the rest
+    Consecutive { n: u32, index: u64 },
 }
 
 fn random_players(rng: &mut Rng, board: &[u8; 5], n: usize, share_ranks: bool) -> Vec<Pid> {
@@ -255,6 +257,37 @@ fn run_job(job: &Job, seed: u64, report: &mut Report, tally: &mut Tally) {
                     }
                 }
             }
+            Job::Consecutive { n, index } => {
+                let mut rng = Rng::derive(seed, "c03-consecutive", *index);
+                for _ in 0..*n {
+                    let n_players = 1 + rng.usize_below(6);
+                    let mut deck: Vec<u8> = (0..52u8).collect();
+                    rng.shuffle(&mut deck);
+                    let players: Vec<Pid> = (0..n_players).map(|i| pid(deck[2 * i], deck[2 * i + 1])).collect();
+                    let rest = &deck[2 * n_players..];
+                    let (turn, river) = (rest[0], rest[1]);
+                    // same players, same turn and river, five different flops in a row
+                    for f in 0..5 {
+                        let b = [rest[2 + 3 * f], rest[3 + 3 * f], rest[4 + 3 * f], turn, river];
+                        check(&SdCase { board: b, players: players.clone(), prob: 1.0 }, None, report, tally);
+                    }
+                    // same flop, different turn/river; and the same board with the seats rotated
+                    for t in 0..3 {
+                        let b = [rest[2], rest[3], rest[4], rest[20 + 2 * t], rest[21 + 2 * t]];
+                        check(&SdCase { board: b, players: players.clone(), prob: 0.5 }, None, report, tally);
+                        let mut rotated = players.clone();
+                        rotated.rotate_left(1);
+                        check(&SdCase { board: b, players: rotated, prob: 0.5 }, None, report, tally);
+                    }
+                    // a refused call (hole card on the board, at a random seat) in between
+                    let mut bad = players.clone();
+                    let seat = rng.usize_below(n_players);
+                    bad[seat] = pid(bad[seat].0, turn);
+                    check(&SdCase { board: [rest[2], rest[3], rest[4], turn, river], players: bad, prob: 1.0 }, None, report, tally);
+                    check(&SdCase { board: [rest[5], rest[6], rest[7], turn, river], players: players.clone(), prob: 1.0 }, None, report, tally);
+                }
+                report.count("consecutive_call_sequences", *n as u64);
+            }
             Job::TieBoards { index } => {
                 let mut rng = Rng::derive(seed, "c03-ties", *index);
                 for t in TIE_BOARDS.iter() {
@@ -304,6 +337,9 @@ pub fn run(ctx: &Ctx) -> Report {
     for i in 0..ctx.tier.pick(8, 64) {
         jobs.push(Job::Collisions { index: i as u64 });
         jobs.push(Job::TieBoards { index: i as u64 });
+    }
+    for i in 0..ctx.tier.pick(40, 400) {
+        jobs.push(Job::Consecutive { n: 100, index: i as u64 });
     }
     let seed = ctx.seed;
     let results = par_run(
@@ -369,6 +405,7 @@ fn dev_batch(seed: u64, part: usize, parts: usize) -> Report {
     for i in 0..6 {
         jobs.push(Job::Collisions { index: 900_000 + i });
         jobs.push(Job::TieBoards { index: 900_000 + i });
+        jobs.push(Job::Consecutive { n: 20, index: 900_000 + i });
     }
     let mut report = Report::new();
     let mut tally = Tally::default();
